@@ -112,6 +112,60 @@ static void run_kdq3(const Case& c) {
   run_query_history<3>(c);
 }
 
+// ---------------------------------------------------------------- mode 4: tall chains on a small-stack thread
+
+// depth ranges: building a chain costs n^2/2 descent steps (0.3 s for 12000 entries under ASan, 0.5 s for 20000 without)
+#ifdef C13_FAST
+static const uint64_t kChainFixed = 24000, kChainMinQuick = 10000, kChainMaxQuick = 40000, kChainMaxThorough = 100000;
+#else
+static const uint64_t kChainFixed = 12000, kChainMinQuick = 6000, kChainMaxQuick = 16000, kChainMaxThorough = 30000;
+#endif
+
+static void run_kdchain(const Case& c) {
+  if (c.u(0) != 4 || c.n.size() != 6) throw std::logic_error("C13: malformed chain case");
+  uint64_t dims = c.u(1), shape = c.u(2), n = c.u(3), kib = c.u(4), salt = c.u(5);
+  if ((dims != 2 && dims != 3) || shape >= NUM_CHAIN_SHAPES || n < 1 || n > 200000 || kib < 64 || kib > 8192) throw std::logic_error("C13: chain case outside the domain");
+  Stats st;
+  ChainInfo info;
+  run_on_small_stack(kib, [&]() {
+    if (dims == 2) KD<2>::chain_body(shape, n, salt, st, info);
+    else KD<3>::chain_body(shape, n, salt, st, info);
+  });
+  if (st.nontrivial) ctx().nontrivial_case();
+  ctx().cls(cat("kdchain:", kChainNames[shape], ":", dims, "d"));
+  ctx().cls(cat("kdchain:entries", n < 1000 ? "<1000" : n < 8000 ? "<8000" : n < 20000 ? "<20000" : n < 50000 ? "<50000" : ">=50000"));
+  ctx().cls(cat("kdchain:stack=", kib, "KiB"));
+  ctx().cls(info.bfs_is_insertion_order ? "kdchain:one-chain(iteration=insertion order)" : "kdchain:not-a-single-chain");
+  ctx().cls((salt & 1) ? "kdchain:destroyed-full" : "kdchain:destroyed-after-erases");
+}
+
+static Case gen_chain() {
+  Case c("kdchain" C13_SUFFIX);
+  uint64_t dims = vg::pick<uint64_t>({2, 2, 2, 3});
+  uint64_t shape = vg::below(NUM_CHAIN_SHAPES);
+  uint64_t hi = ctx().thorough() ? kChainMaxThorough : kChainMaxQuick;
+  // mostly tall; one in five short (the same operations on a small stack without the cost)
+  uint64_t n = vg::chance(1, 5) ? 1 + vg::below(600) : kChainMinQuick + vg::below(hi - kChainMinQuick + 1);
+  uint64_t kib = vg::pick<uint64_t>({128, 192, 256, 256, 384, 512});
+  c.N(4).N(dims).N(shape).N(n).N(kib).N(vg::below(1000000));
+  return c;
+}
+
+// every shape once at a fixed depth on a 256 KiB stack (2-D, destroyed after the erase phase), two of them in 3-D and
+// destroyed full
+static void enum_kdchain(Enum& e) {
+  uint64_t idx = 0;
+  for (unsigned shape = 0; shape < NUM_CHAIN_SHAPES + 2 && !e.stop; shape++, idx++) {
+    if (!e.mine(idx)) continue;
+    Case c("kdchain" C13_SUFFIX);
+    if (shape < NUM_CHAIN_SHAPES) c.N(4).N(2).N(shape).N(kChainFixed).N(256).N(2 + 4 * shape);
+    else c.N(4).N(3).N(shape == NUM_CHAIN_SHAPES ? CHAIN_DESCENDING : CHAIN_HALF_HALF).N(kChainFixed).N(256).N(1);
+    e.exec(c);
+  }
+  e.complete(cat("every chain shape (ascending, descending, all-equal, half-half, zigzag, staircase) with ", kChainFixed,
+      " entries in 2-D and two of them in 3-D, built, queried, partly erased and destroyed on a thread with a 256 KiB stack"));
+}
+
 // Insertions that realise a chosen tree SHAPE (the tree is never rebalanced, so the shape is a function of the
 // insertion order): a spine of `levels` nodes that turns to the before / after side by a pattern, and at every level,
 // with a chosen probability, a small subtree on the other side. Built by keeping the box of coordinates that reach
@@ -358,11 +412,13 @@ int main(int argc, char** argv) {
   std::vector<SubCheck> checks;
 #ifdef C13_FAST
   checks.push_back({"kd2" C13_SUFFIX, run_kd2, nullptr, 0, 0, 100, enum_kd2});
+  checks.push_back({"kdchain" C13_SUFFIX, run_kdchain, gen_chain, 8, 48, 100, enum_kdchain});
 #else
   checks.push_back({"kd2" C13_SUFFIX, run_kd2, gen_history<2>, kGated ? 6000 : 15000, kGated ? 60000 : 300000, 100, kGated ? std::function<void(Enum&)>() : enum_kd2});
   checks.push_back({"kd3" C13_SUFFIX, run_kd3, gen_history<3>, kGated ? 4000 : 8000, kGated ? 40000 : 150000, 100, nullptr});
   checks.push_back({"kdq2" C13_SUFFIX, run_kdq2, gen_query_history<2>, kGated ? 2000 : 8000, kGated ? 20000 : 160000, 100, kGated ? std::function<void(Enum&)>() : enum_kdq2});
   checks.push_back({"kdq3" C13_SUFFIX, run_kdq3, gen_query_history<3>, kGated ? 1000 : 4000, kGated ? 10000 : 80000, 100, nullptr});
+  if (!kGated) checks.push_back({"kdchain" C13_SUFFIX, run_kdchain, gen_chain, 8, 96, 100, enum_kdchain});
 #endif
   return main_(argc, argv, checks);
 }
